@@ -153,7 +153,7 @@ def parse_ob_line(
 ) -> list[str]:
     """Outbrain line parsing - generic TSVs"""
 
-    line_string = line_string.strip()
+    line_string = line_string.rstrip('\r\n')
     parts = line_string.split(delimiter)
     return parts
 
